@@ -19,6 +19,11 @@ F = [
  ("f3f4d4f", ["C17"], "checker did not type operands/result of + and -: clean check, TypeError at run time (e.g. source = @a + 1)"),
  ("245667e", ["C18"], "analysis.CheckSource nil-dereferenced on `vars { number = balance(@a, USD) }` (declaration without a name)"),
  ("2466e4f", ["C17","C16"], "self-referencing origin `account $a = meta($a, \"k\")` checked clean but failed at run time with an unbound variable (reported by a seeding sub-agent, reproduced by C17's origin-self-reference edit)"),
+ ("09294be", ["C10","C11"], "balance(@world, A) / overdraft(@world, A) read whatever a superset / Static store had put into the cache for @world although it is never requested (found by a bug-hunt sub-agent; reproduced by C10 after origins on @world and a @world sheet entry were added)"),
+ ("63fb93d", ["C16","C19"], "variables in surplus call arguments were neither reported when undeclared nor counted as uses (found by a bug-hunt sub-agent; reproduced by C16's extra-argument-use mutation)"),
+ ("03f6668", ["C13"], "a p.q% portion text with more than a million decimals was exact as a literal but rejected as a variable (big.Rat.SetString exponent limit) (found by a bug-hunt sub-agent; reproduced by C13 case huge/1000001)"),
+ ("e0e50b5", ["C19"], "hover / definition on the second of two touching tokens ($a$b) answered with the first (inclusive range end) (found by a bug-hunt sub-agent; reproduced by C19's navigation monitor once layouts glue $, @ and string tokens)"),
+ ("1c4e09b", ["C20","C13"], "Monetary.MarshalJSON did not escape the asset: CLI JSON decoded to another text or the encoder crashed for assets containing a backslash / quote / control character (found by a bug-hunt sub-agent; reproduced by C20's odd-asset cases)"),
  ("e6ff71c", ["C02","C06"], "allotment with `remaining` and other portions above one produced a negative posting (world->c -3) (reported by a seeding sub-agent, reproduced by C02's oversum stratum)"),
 ]
 out = {"_comment": "Read-only at run time. status=fixed entries are informational and suppress nothing; a status=known entry would match a violation by property + signature (+ optional input substring). No known (unrepaired) finding exists at present.", "findings": []}
